@@ -329,10 +329,14 @@ pub fn run_term(trace: &Trace) -> Outcome {
     guard::take_panics();
     guard::mem_begin((mem as usize) << 20, (ONE_ALLOC_MIB as usize) << 20);
 
+    // C03: the step bound is for the whole input, not per event
+    let cumulative = trace.property == "C03";
+    let mut fuel_left = fuel;
     let mut monitor: Box<dyn Monitor> = monitors::for_trace(trace, &s);
     let mut violation: Option<Violation> = None;
     let mut ended = String::from("completed");
     let mut max_fuel: u64 = 0;
+    let mut total_fuel: u64 = 0;
     let mut max_depth: u32 = 0;
 
     'events: for (ei, ev) in trace.events.iter().enumerate() {
@@ -349,7 +353,7 @@ pub fn run_term(trace: &Trace) -> Outcome {
                 };
                 for b in bytes {
                     guard::phase(1);
-                    hooks::set_fuel(fuel, DEFAULT_MAX_DEPTH);
+                    hooks::set_fuel(if cumulative { fuel_left } else { fuel }, DEFAULT_MAX_DEPTH);
                     let tickets_before = hooks::gate_tickets();
                     let pos_before = s.caret.get_position();
                     let dcs_snapshot = match (&s.parser, b) {
@@ -364,6 +368,8 @@ pub fn run_term(trace: &Trace) -> Outcome {
                         catch_unwind(AssertUnwindSafe(|| parser.get().print_char(buf, 0, caret, b as char)))
                     };
                     max_fuel = max_fuel.max(hooks::fuel_used());
+                    total_fuel += hooks::fuel_used();
+                    fuel_left = fuel_left.saturating_sub(hooks::fuel_used());
                     max_depth = max_depth.max(hooks::depth_seen());
                     hooks::set_fuel(hooks::UNLIMITED, u32::MAX);
                     s.bytes_delivered += 1;
@@ -567,6 +573,16 @@ pub fn run_term(trace: &Trace) -> Outcome {
         let _ = std::fs::remove_dir_all(dir);
     }
     stats.max("fuel_per_event", max_fuel);
+    stats.max("fuel_per_run", total_fuel);
+    if cumulative && fuel > 0 {
+        stats.max("fuel_permille_of_bound", total_fuel.saturating_mul(1000) / fuel);
+        if total_fuel > fuel / 2 {
+            stats.count("probe_fuel_above_half_of_bound");
+        }
+        if total_fuel > fuel / 4 {
+            stats.max(&format!("fuel_permille_hot:{}:{}x{}", monitors::budget_class(trace, 0), cfg.w, cfg.h), total_fuel.saturating_mul(1000) / fuel);
+        }
+    }
     stats.max("print_char_depth", u64::from(max_depth));
     stats.max("heap_peak_bytes", peak as u64);
     stats.max("largest_alloc_bytes", largest as u64);
